@@ -51,6 +51,14 @@ def sort_cases(nq=4000, nt=None):
     return cases
 
 
+def report_cases(nq=6000, nt=None):
+    def cases(tier, seed):
+        t = 1 if tier == "quick" else 2
+        cs = families.sample(families.export_family("report", t, module="Gen_Report"), nq if tier == "quick" else nt, seed)
+        return [dict(c, kind="report", cfg={"id": c["id"]}) for c in cs]
+    return cases
+
+
 def both(*fs):
     def cases(tier, seed):
         out = []
@@ -108,8 +116,12 @@ UNREGISTERED = set()
 def _sig(case):
     """A case is counted once per distinct behaviour: the sequence of task-state vectors."""
     r = case["runs"][0]
+    if r.get("op") == "subconfig":
+        return json.dumps([r["obs"], case["cfg"]["deps"], case["cfg"]["opts"]])
     if r.get("op") == "sort":
         return json.dumps([r["fn"], r["mode"], r["out"], r["vals"], case["cfg"]["workers"], case["cfg"]["facs"]])
+    if r.get("op") == "report":
+        return json.dumps([r.get(k) for k in ("fn", "cls", "log", "logs", "m2", "unit", "times", "state", "time", "last")])
     return json.dumps([e["st"]["ts"] for e in r.get("ev", []) if e["ph"] == "recorded"]
                       + [r.get("ret")]) + json.dumps(case["cfg"]["deps"])
 
@@ -122,6 +134,14 @@ def nontrivial(prop, recs):
         r = c["runs"][0]
         if r.get("op") == "sort":
             if len(set(r["out"])) >= 2 and r["out"] != r["inp"]:
+                sigs.add(_sig(c))
+            continue
+        if r.get("op") == "subconfig":
+            if len(c["runs"]) > 1 and r["obs"]["D"] > 0:
+                sigs.add(_sig(c))
+            continue
+        if r.get("op") == "report":
+            if r["out"] not in ([], [[], []], [[], [], []]):
                 sigs.add(_sig(c))
             continue
         steps = [e for e in r.get("ev", []) if e["ph"] == "recorded"]
@@ -140,6 +160,13 @@ def samples(prop, recs, n=2):
         r = c["runs"][0]
         if r.get("op") == "sort":
             out.append({k: r[k] for k in ("fn", "mode", "t", "p", "vals", "inp", "out", "ret")})
+            continue
+        if r.get("op") == "report":
+            out.append({k: v for k, v in r.items() if k not in ("ev", "args", "obs", "opts")})
+            continue
+        if r.get("op") == "subconfig":
+            out.append({"subconfig": r["obs"], "parent_deps": c["cfg"]["deps"],
+                        "parent_task_state_log": c["runs"][-1]["final"]["lg"]["ts"]})
             continue
         out.append({"cfg": c["cfg"], "ret": r.get("ret"),
                     "task_state_log": r["final"]["lg"]["ts"], "events": len(r.get("ev", []))})
@@ -249,10 +276,22 @@ def c17_cases(tier, seed):
     return out
 
 
+def _with_subtask(tier, seed, n):
+    """Parent models of the sub family with the sub-project task given a fixed length."""
+    out = []
+    for c in _fam("sub", tier, n, n * 5, seed):
+        c = json.loads(json.dumps(c))
+        c["tasks"][1]["work"] = 2 * c["Q"]
+        c["tasks"][1]["rate"] = c["Q"]
+        c["id"] += "s"
+        out.append(c)
+    return out
+
+
 def c18_cases(tier, seed):
     rng = _random.Random(seed + 18)
     out = []
-    pool = _pool(tier, seed, ["abs", "placeflat"], 60, 600, dict(), 80, 800)
+    pool = _pool(tier, seed, ["abs", "placeflat"], 60, 600, dict(), 80, 800) + _with_subtask(tier, seed, 20)
     for cfg in pool:
         ops = [{"op": "simulate", "light": True}]
         # arbitrary edit sequences on a result that may contain absence steps
@@ -278,7 +317,7 @@ def c18_cases(tier, seed):
 def c16_cases(tier, seed):
     rng = _random.Random(seed + 16)
     out = []
-    pool = _pool(tier, seed, ["deps", "placeflat"], 40, 400, dict(), 80, 800)
+    pool = _pool(tier, seed, ["deps", "placeflat"], 40, 400, dict(), 80, 800) + _with_subtask(tier, seed, 20)
     for cfg in pool:
         k = rng.randint(0, 5)
         simple = _saved_format_only(cfg)
@@ -344,6 +383,28 @@ def c08_hist_cases(tier, seed):
     return out
 
 
+def c20_cases(tier, seed):
+    rng = _random.Random(seed + 20)
+    parents = _fam("sub", tier, 200, 2000, seed)
+    children = _pool(tier, seed, ["deps", "abs"], 60, 600, dict(components=False, facilities=False), 40, 400, prefix="K")
+    out = []
+    for i, pc in enumerate(parents):
+        ch = children[i % len(children)]
+        su, pu = pc["units"]
+        variant = rng.random()
+        spec = {"kind": "subproject", "cfg": dict(pc, id=pc["id"] + "#c20"), "child": ch, "su": su, "pu": pu,
+                "flag": rng.random() < 0.5, "sub": 2,
+                "childOpts": {"absL": rng.choice([[], [1], [0, 2, 30], [1, 2]])}}
+        if variant < 0.12:
+            spec["childOpts"]["maxTime"] = 1          # child not finished: FAILURE
+        elif variant < 0.2:
+            spec["childSimulated"] = False            # child never simulated
+        out.append(spec)
+    return out
+
+
+PLANS["C20"] = dict(cases=c20_cases)
+PLANS["C19"] = dict(cases=report_cases())
 PLANS["C09"] = dict(cases=c09_cases, l1=l1(dict(family="deps", invariants=["Inv_C09"])))
 PLANS["C15"] = dict(cases=c15_cases, l1=l1(dict(family="deps", invariants=["Inv_C15"])))
 PLANS["C17"] = dict(cases=c17_cases)
